@@ -35,14 +35,14 @@ func TestSameString(t *testing.T) {
 	yes := [][2]string{
 		{"abc", "abc"},
 		{"a\x80b", "a�b"},
-		{"\xe2\x82", "��"},                 // per byte
+		{"\xe2\x82", "��"},                      // per byte
 		{"\xe2\x82", "�"},                       // per run
-		{"\xe2\x82�", "��"},           // run then a literal U+FFFD
-		{"\xe2\x82�", "���"},     //
-		{"x\x80y\xffz", "x�y�z"},           //
-		{"\x80", "\x80"},                             // raw bytes handed back
+		{"\xe2\x82�", "��"},                     // run then a literal U+FFFD
+		{"\xe2\x82�", "���"},                    //
+		{"x\x80y\xffz", "x�y�z"},                //
+		{"\x80", "\x80"},                        // raw bytes handed back
 		{"a\x80\x80", "a�\x80"},                 // partly raw: same after per-byte replacement
-		{"\xf0\x9f\x98", "���"},       // truncated 4 byte rune
+		{"\xf0\x9f\x98", "���"},                 // truncated 4 byte rune
 		{"\xf0\x9f\x98\x80\x80", "\U0001F600�"}, // valid rune then lone continuation
 	}
 	for _, c := range yes {
